@@ -65,9 +65,10 @@ class NamePool:
     """Draws fresh names of each style; guarantees global uniqueness of the
     case-folded, underscore-stripped form so flattened names cannot collide."""
 
-    def __init__(self, rng):
+    def __init__(self, rng, digits: float = 0.0):
         self.rng = rng
         self.used = set()
+        self.digits = digits  # probability that a PascalCase name ends in a digit (C10/C15 composition slice)
 
     def _norm(self, s: str) -> str:
         return s.replace("_", "").lower()
@@ -91,6 +92,8 @@ class NamePool:
             n = r.choice(PASCAL_WORDS)
             if r.random() < 0.6:
                 n += r.choice(PASCAL_WORDS)
+            if self.digits and r.random() < self.digits:
+                n += str(r.randint(1, 9))
             return n
 
         return self._fresh(make)
